@@ -58,7 +58,7 @@ def vw(b):
 class C14(Prop):
     id = "C14"
     title = "Output reaches the client in order, exactly once, under any write pattern"
-    lean_modules = ["NV.C14.Props", "NV.C14.PropsHist", "NV.C14.PropsNeg", "NV.C14.PropsMulti", "NV.C14.PropsClose"]
+    lean_modules = ["NV.C14.Props", "NV.C14.PropsHist", "NV.C14.PropsNeg", "NV.C14.PropsMulti", "NV.C14.PropsClose", "NV.C14.PropsFmt"]
     theorems = ["NV.C14.model_satisfies_spec", "NV.C14.ring_inv", "NV.C14.ring_indices_in_bounds",
                 "NV.C14.chunk_in_bounds", "NV.C14.no_fault", "NV.C14.write_interest_when_pending",
                 "NV.C14.N_two_le", "NV.C14.only_tail_lost", "NV.C14.write_stores_prefix_image",
@@ -70,6 +70,8 @@ class C14(Prop):
                 # pending bytes at close: what is promised
                 "NV.C14.close_loses_only_unsent_suffix", "NV.C14.close_delivers_all_when_socket_accepts",
                 "NV.C14.flushLoop_drains", "NV.C14.peerfin_sends_nothing",
+                # formatting clause of the oracle (add_vmessage stores exactly the text it was asked to format)
+                "NV.C14.model_formats_exactly",
                 # bridges between the definitions regenerated from src/comm.c and the ring operations
                 "NV.C14.chunkLen_eq", "NV.C14.producerNext_eq", "NV.C14.consumerNext_eq", "NV.C14.lengthAfterSend_eq",
                 "NV.C14.thrFull_eq", "NV.C14.thrLF_eq", "NV.C14.keepsData_eq", "NV.C14.keepsData_pipe",
@@ -101,7 +103,9 @@ class C14(Prop):
                   "snooper's receive_snoop that writes, destructs users or raises an error, telnet negotiation replies "
                   "written by copy_chars while input bytes are decoded, interleaved with text): every user's stream of every "
                   "world run is proved to be a single-user run and to satisfy the specification oracle; at close only an unsent "
-                  "suffix of the pending bytes is lost and nothing is lost when the socket accepts; the model is tied "
+                  "suffix of the pending bytes is lost and nothing is lost when the socket accepts; the text add_vmessage stores is "
+                  "the text it was asked to format (oracle clause judgeFmt, proved for the model, checked on every trace with "
+                  "lengths swept around powers of two / ring size / local buffer sizes); the model is tied "
                   "to the source by regenerated constants / expressions / telnet reply strings / 33 statement-shape checks and by running the real "
                   "comm.c code (real setup_accepted_connection on socketpairs, real epoll runtime, real LPC user objects, "
                   "interposed send()/write()/close(), every add_message call observed through a guarded hook) and the model "
